@@ -1,4 +1,5 @@
 import GateryModel.C02.Vhdl.Kernel
+import GateryModel.C02.ExportNet
 /-!
 Driver for C02.  Per case the harness sends the recipe, the text of the REAL exported `.vhd` files, of `testbench.vhd` and the
 recorded `testbench.testvectors`.  The driver parses the files (`Vhdl/Parse.lean`), elaborates and interprets them
@@ -11,7 +12,49 @@ recorded `testbench.testvectors`.  The driver parses the files (`Vhdl/Parse.lean
 The VHDL semantics used here is this project's model of IEEE 1076 / numeric_std, not a second simulator.
 -/
 open Gatery.C02.Vhdl
+open Gatery.C02
 open Std
+
+/-! canonical text of expressions / statements (used to compare the parsed file with the model output) -/
+
+def binText : BinOp → String
+  | .and => "and" | .or => "or" | .xor => "xor" | .nand => "nand" | .nor => "nor" | .xnor => "xnor"
+  | .eq => "=" | .ne => "/=" | .lt => "<" | .gt => ">" | .le => "<=" | .ge => ">="
+  | .add => "+" | .sub => "-" | .mul => "*" | .cat => "&"
+
+partial def exprText : Expr → String
+  | .name n => n.toLower
+  | .index n i => s!"{n.toLower}({exprText i})"
+  | .slice n h l => s!"{n.toLower}({h} downto {l})"
+  | .chr c => s!"'{c.toChar}'"
+  | .str b => "\"" ++ bitsToString b ++ "\""
+  | .boolLit b => if b then "true" else "false"
+  | .int n => toString n
+  | .others c => s!"(others => '{c.toChar}')"
+  | .agg0 e => s!"(0 => {exprText e})"
+  | .not e => s!"not {exprText e}"
+  | .bin o a b => s!"{exprText a} {binText o} {exprText b}"
+  | .call1 f a => (match f with | .toUnsigned => "unsigned" | .toSlv => "std_logic_vector" | .toInteger => "to_integer" | .bool2sl => "bool2stdlogic" | .sl2bool => "stdlogic2bool") ++ s!"({exprText a})"
+  | .call2 f a b => (match f with | .resize => "resize" | .shiftLeft => "shift_left" | .shiftRight => "shift_right") ++ s!"({exprText a}, {exprText b})"
+  | .edge r c => (if r then "rising_edge(" else "falling_edge(") ++ c.toLower ++ ")"
+  | .event n => n.toLower ++ "'event"
+  | .paren e => s!"({exprText e})"
+
+mutual
+  partial def stmtText : Stmt → String
+    | .sigAssign (.name n) e => s!"{n.toLower} <= {exprText e};"
+    | .sigAssign (.index n i) e => s!"{n.toLower}({exprText i}) <= {exprText e};"
+    | .varAssign n e => s!"{n.toLower} := {exprText e};"
+    | .ite c t e => s!"if {exprText c} then {stmtsText t} else {stmtsText e} end if;"
+    | .case s a => s!"case {exprText s} is {altsText a} end case;"
+    | .assert c => s!"assert {exprText c};"
+  partial def stmtsText : Stmts → String
+    | .nil => ""
+    | .cons s r => stmtText s ++ " " ++ stmtsText r
+  partial def altsText : Alts → String
+    | .nil => ""
+    | .cons c b r => (match c with | some bits => "when \"" ++ bitsToString bits ++ "\"" | none => "when others") ++ " => " ++ stmtsText b ++ altsText r
+end
 
 structure CaseData where
   id : String := ""
@@ -20,6 +63,7 @@ structure CaseData where
   files : Array (String × String) := #[]
   tb : String := ""
   vectors : Array String := #[]
+  xlines : Array String := #[]
   skipped : Bool := false
 
 structure Stats where
@@ -118,11 +162,115 @@ def short (s : String) (n : Nat := 300) : String := if s.length > n then (s.take
 def maxWidthOf (ents : List Entity) : Nat :=
   ents.foldl (fun m e => e.ports.foldl (fun m p => max m (tyWidth p.ty)) (e.decls.foldl (fun m d => max m (tyWidth d.ty)) m)) 0
 
+/-! the exporter's view of the processes (harness `dumpExporterView`) -/
+
+def parseNP (s : String) : Option NP :=
+  if s == "-" then none else
+  match s.splitOn ":" with
+  | [a, b] => match a.toNat?, b.toNat? with | some x, some y => some (x, y) | _, _ => none
+  | _ => none
+
+def ctxOf (s : String) : Ctx := match s with | "SL" => .sl | "SLV" => .slv | "UNS" => .uns | _ => .bool
+
+def bitsOfText (s : String) : Bits :=
+  if s == "-" then [] else s.toList.reverse.map fun c => match c with | '0' => SL.O | '1' => SL.I | _ => SL.X
+
+def kvOf (toks : List String) (key : String) : Option String :=
+  (toks.find? (·.startsWith (key ++ "="))).map fun t => (t.drop (key.length + 1)).toString
+
+def parseRanges (s : String) : List (Nat × RangeSrc) :=
+  if s == "-" then [] else (s.splitOn ";").filterMap fun r =>
+    match r.splitOn "," with
+    | [w, "I", i, o] => some (w.toNat!, .input i.toNat! o.toNat!)
+    | [w, "Z"] => some (w.toNat!, .zero)
+    | [w, "O"] => some (w.toNat!, .one)
+    | [w, "X"] => some (w.toNat!, .undef)
+    | _ => none
+
+def parseXProcs (lines : Array String) : List XProc := Id.run do
+  let mut out : List XProc := []
+  let mut cur : Option XProc := none
+  for l in lines do
+    let toks := l.splitOn " "
+    match toks with
+    | ["xproc", e, n, k] => cur := some { entity := e.toLower, name := n.toLower, isReg := k == "reg" }
+    | ["xdecl", np, name, ty, cls] =>
+      if let some p := cur then if let some x := parseNP np then cur := some { p with decls := p.decls ++ [(x, { name, ty := ctxOf ty, cls })] }
+    | ["xpin", id, name, ty] =>
+      if let some p := cur then cur := some { p with pins := p.pins ++ [(id.toNat!, name, ctxOf ty)] }
+    | "xnode" :: id :: kind :: rest =>
+      if let some p := cur then
+        let outs := match kvOf rest "out" with
+          | some "-" | none => []
+          | some s => (s.splitOn ",").map fun o => (o.front, (o.drop 1).toString.toNat!)
+        let ins := match kvOf rest "in" with
+          | some "-" | none => []
+          | some s => (s.splitOn ",").map parseNP
+        let n : XNode := { id := id.toNat!, kind, outs, ins, op := (kvOf rest "op").getD "",
+                           ranges := parseRanges ((kvOf rest "ranges").getD "-"), constVal := bitsOfText ((kvOf rest "val").getD "-"),
+                           pinDir := (kvOf rest "dir").getD "" }
+        cur := some { p with nodes := p.nodes.insert n.id n }
+    | "xorder" :: ids => if let some p := cur then cur := some { p with order := ids.filterMap String.toNat? }
+    | ["xresetval", r, c] => if let some p := cur then cur := some { p with resetVals := p.resetVals ++ [(r.toNat!, c.toNat!)] }
+    | "xregcfg" :: rest =>
+      if let some p := cur then
+        let kind : ResetKind := match kvOf rest "kind" with | some "sync" => .sync | some "async" => .async | _ => .none
+        let trig : Trigger := match kvOf rest "trig" with | some "F" => .falling | some "B" => .both | _ => .rising
+        cur := some { p with regCfg := some { clock := (kvOf rest "clock").getD "", reset := (kvOf rest "reset").getD "", kind,
+                                              resetHigh := (kvOf rest "high") == some "1", trigger := trig } }
+    | ["xend"] => if let some p := cur then out := out ++ [p]; cur := none
+    | _ => pure ()
+  return out
+
+partial def findProcess (cs : List Conc) (label : String) : Option (Option (List String) × Stmts) :=
+  match cs with
+  | [] => none
+  | .process l sens _ body :: r => if l == label then some (sens, body) else findProcess r label
+  | .block _ _ body :: r => match findProcess body label with | some x => some x | none => findProcess r label
+  | _ :: r => findProcess r label
+
+/-- compare every dumped process with the model; returns (stats, first mismatch) -/
+def compareExporterModel (design : DesignFile) (xs : List XProc) (st : Stats) : Stats × Option String := Id.run do
+  let mut st := st
+  let mut firstBad : Option String := none
+  for p in xs do
+    let parsed := (design.entities.find? (·.name == p.entity)).bind fun e => findProcess e.body p.name
+    match parsed with
+    | none => st := st.bump "k:process_not_found_in_file"
+    | some (sens, body) =>
+      if p.isReg then
+        match regProcessFromDump p with
+        | .error e => st := st.bump ("k:reg_unmodelled:" ++ (e.take 40).toString)
+        | .ok (cfg, model) =>
+          let sensOk := sens == some ((regProcessSens cfg).map String.toLower)
+          if stmtsText model == stmtsText body && sensOk then st := st.bump "k:reg_process_equal"
+          else
+            st := st.bump "k:reg_process_differs"
+            if firstBad.isNone then firstBad := some s!"{p.entity}.{p.name}: emitted [{stmtsText body}] model [{stmtsText model}] sensitivity {sens}"
+      else
+        match combProcessBody p with
+        | .error e => st := st.bump ("k:comb_unmodelled:" ++ (e.take 60).toString)
+        | .ok model =>
+          let emitted := body.toList
+          if emitted.length != model.length then
+            st := st.bump "k:comb_process_differs"
+            if firstBad.isNone then firstBad := some s!"{p.entity}.{p.name}: {emitted.length} statements emitted, model has {model.length}"
+          else
+            let mut ok := true
+            for (a, b) in emitted.zip model do
+              if stmtText a == stmtText b then st := st.bump "k:statements_equal"
+              else
+                ok := false
+                st := st.bump "k:statements_differ"
+                if firstBad.isNone then firstBad := some s!"{p.entity}.{p.name}: emitted [{stmtText a}] model [{stmtText b}]"
+            st := st.bump (if ok then "k:comb_process_equal" else "k:comb_process_differs")
+  return (st, firstBad)
+
 def runCase (c : CaseData) (st : Stats) : IO Stats := do
   let mut st := { st with cases := st.cases + 1 }
   let hd := c.header
   for kv in hd.splitOn " " do
-    if kv.startsWith "reset=" || kv.startsWith "trig=" || kv.startsWith "mode=" || kv.startsWith "style=" || kv.startsWith "areas=" || kv.startsWith "extra=" || kv.startsWith "undef=" || kv.startsWith "pon=" || kv.startsWith "tri=" then
+    if kv.startsWith "reset=" || kv.startsWith "trig=" || kv.startsWith "mode=" || kv.startsWith "style=" || kv.startsWith "areas=" || kv.startsWith "extra=" || kv.startsWith "undef=" || kv.startsWith "rundef=" || kv.startsWith "pon=" || kv.startsWith "tri=" then
       st := st.bump ("opt:" ++ kv)
   let diff := fun (st : Stats) (what msg : String) => do
     IO.println s!"DIFF case={c.id} what={what} {hd} :: {short msg}"
@@ -153,6 +301,10 @@ def runCase (c : CaseData) (st : Stats) : IO Stats := do
   let items ← match parseVectors c.vectors.toList with
     | .ok i => pure i
     | .error e => return ← diff st "vectors" e
+  -- 1b. exporter model vs. emitted text (statement by statement, in emitted order)
+  let (st', bad) := compareExporterModel design (parseXProcs c.xlines) st
+  st := st'
+  if let some msg := bad then st ← diff st "exporter_model" msg
   -- 2. elaborate
   let (flat, top) ← match elaborate design "top" hdr.sigInit with
     | .ok r => pure r
@@ -214,7 +366,8 @@ partial def loop (h : IO.FS.Stream) (st : Stats) (cur : Option CaseData) : IO St
     | none => loop h st none
   else
     match cur with
-    | some c => loop h st (some { c with recipe := c.recipe.push l })
+    | some c => if l.startsWith "x" && !l.startsWith "xdesc" then loop h st (some { c with xlines := c.xlines.push l })
+                else loop h st (some { c with recipe := c.recipe.push l })
     | none => loop h st none
 
 def main : IO Unit := do
